@@ -257,6 +257,117 @@ fn crash_cases(sink: &mut Sink, scratch: &str) {
     }
 }
 
+/// The pin as the user writes it: a project whose configuration extends a URL served by a local
+/// HTTP server, checked by the binary.  With `extends_sha256` present the body takes effect only
+/// if its hash is the pin — an empty or blank pin is a pin no content has — and a rejected body
+/// is not written anywhere.
+fn e2e_pins(sink: &mut Sink, scratch: &str) {
+    use std::io::{Read, Write};
+    let Ok(bin) = std::env::var("SGVERIF_BIN") else { return };
+    let body = "version = \"2\"\n[content]\nmax_lines = 5\n";
+    let genuine = compute_content_hash(body);
+    let pins: Vec<(&str, Option<String>, bool)> = vec![
+        ("no-pin", None, true),
+        ("genuine", Some(genuine.clone()), true),
+        ("wrong", Some("0".repeat(64)), false),
+        ("empty", Some(String::new()), false),
+        ("blank", Some("   ".to_string()), false),
+    ];
+    for (label, pin, accepted) in pins {
+        if !sink.want() {
+            sink.skip();
+            continue;
+        }
+        let Ok(listener) = std::net::TcpListener::bind("127.0.0.1:0") else {
+            sink.push(Case { request: "noop".into(), implementation: "-".into(), pred: "ok".into(), tag: "e2e-pin/no-loopback".into() });
+            continue;
+        };
+        let port = listener.local_addr().unwrap().port();
+        listener.set_nonblocking(true).unwrap();
+        let stop = std::sync::Arc::new(std::sync::atomic::AtomicBool::new(false));
+        let stop2 = stop.clone();
+        let served = std::sync::Arc::new(std::sync::atomic::AtomicUsize::new(0));
+        let served2 = served.clone();
+        let server = std::thread::spawn(move || {
+            while !stop2.load(std::sync::atomic::Ordering::SeqCst) {
+                match listener.accept() {
+                    Ok((mut s, _)) => {
+                        let _ = s.set_nonblocking(false);
+                        let _ = s.set_read_timeout(Some(std::time::Duration::from_millis(500)));
+                        let mut buf = [0u8; 2048];
+                        let _ = s.read(&mut buf);
+                        let _ = write!(s, "HTTP/1.1 200 OK\r\nContent-Type: text/plain\r\nContent-Length: {}\r\nConnection: close\r\n\r\n{}", body.len(), body);
+                        served2.fetch_add(1, std::sync::atomic::Ordering::SeqCst);
+                    }
+                    Err(_) => std::thread::sleep(std::time::Duration::from_millis(5)),
+                }
+            }
+        });
+        let dir = PathBuf::from(scratch).join(format!("pin{}", sink.n));
+        let home = PathBuf::from(scratch).join(format!("pinhome{}", sink.n));
+        let _ = std::fs::remove_dir_all(&dir);
+        let _ = std::fs::remove_dir_all(&home);
+        std::fs::create_dir_all(dir.join("src")).unwrap();
+        std::fs::create_dir_all(&home).unwrap();
+        std::fs::write(dir.join("src/a.rs"), "let x = 1;\n".repeat(10)).unwrap();
+        let mut cfg = format!("version = \"2\"\nextends = \"http://127.0.0.1:{port}/base.toml\"\n");
+        if let Some(p) = &pin {
+            cfg += &format!("extends_sha256 = \"{p}\"\n");
+        }
+        cfg += "[content]\nextensions = [\"rs\"]\n";
+        std::fs::write(dir.join(".sloc-guard.toml"), cfg).unwrap();
+        let o = std::process::Command::new(&bin)
+            .args(["check", "--no-sloc-cache", "--format", "json", "."])
+            .current_dir(&dir)
+            .env("NO_COLOR", "1")
+            .env("HOME", &home)
+            .env("XDG_CACHE_HOME", home.join("cache"))
+            .env("no_proxy", "127.0.0.1")
+            .env_remove("http_proxy")
+            .env_remove("HTTP_PROXY")
+            .output()
+            .expect("run sloc-guard");
+        stop.store(true, std::sync::atomic::Ordering::SeqCst);
+        let _ = server.join();
+        let rc = o.status.code().unwrap_or(-1);
+        let err = String::from_utf8_lossy(&o.stderr).lines().next().unwrap_or("").to_string();
+        // any copy of the body written below the project or the (private) home directory
+        fn holds(dir: &Path, needle: &str) -> bool {
+            let Ok(rd) = std::fs::read_dir(dir) else { return false };
+            for e in rd.flatten() {
+                let p = e.path();
+                if p.is_dir() {
+                    if holds(&p, needle) {
+                        return true;
+                    }
+                } else if p.file_name().is_some_and(|n| n != "a.rs") && std::fs::read_to_string(&p).is_ok_and(|t| t.contains(needle)) {
+                    return true;
+                }
+            }
+            false
+        }
+        let cached = holds(&dir, "max_lines = 5") || holds(&home, "max_lines = 5");
+        let mut pred: Option<String> = None;
+        let mut tag = format!("e2e-pin/{label}");
+        if served.load(std::sync::atomic::Ordering::SeqCst) == 0 {
+            tag += "/server-not-reached";
+        } else if accepted {
+            if rc != 1 {
+                pred = Some(format!("pin {label}: the base (max_lines = 5) should take effect and fail the 10-line file; exit {rc} {err}"));
+            }
+        } else {
+            if rc != 2 {
+                pred = Some(format!("pin {label} ({:?}): the body's hash is not the pin, but `check` exits {rc} instead of rejecting it", pin.as_deref().unwrap_or("")));
+            } else if cached {
+                pred = Some(format!("pin {label}: the rejected body was written to the cache"));
+            }
+        }
+        let _ = std::fs::remove_dir_all(&dir);
+        let _ = std::fs::remove_dir_all(&home);
+        sink.push(Case { request: "noop".into(), implementation: "-".into(), pred: pred.map_or_else(|| "ok".to_string(), |p| format!("FAIL {p}")), tag });
+    }
+}
+
 pub fn run(tier: Tier, seed: u64, out: &str) {
     let mut sink = Sink::create(out);
     let mut r = Rng::new(seed);
@@ -289,6 +400,7 @@ pub fn run(tier: Tier, seed: u64, out: &str) {
         run_seq(&mut sink, &root, hash, true, cache, &steps, "sequence");
     }
     crash_cases(&mut sink, &scratch);
+    e2e_pins(&mut sink, &scratch);
     sink.extra.insert("exhaustive_product".into(), serde_json::json!(108));
     sink.extra.insert("trivial_tag_prefixes".into(), serde_json::json!([]));
     sink.finish(out);
